@@ -300,8 +300,10 @@ Fixpoint sort_with (lt : Z -> Z -> option bool) (l : list Z) : option (list Z) :
   | x :: t => match sort_with lt t with Some t' => insert_sorted lt x t' | None => None end
   end.
 
+(* sorted() first builds SortKey(r) for every r, which reads the cells (and raises if it cannot) *)
 Definition sort_rows (t : table) (spec : sortspec) (l : list Z) : option (list Z) :=
-  sort_with (row_lt t spec) l.
+  if forallb (fun r => match sort_values t spec r with Some _ => true | None => false end) l
+  then sort_with (row_lt t spec) l else None.
 
 (* ------------------------------------------------------------------------------------------- *)
 (* twowaymap.py                                                                                *)
@@ -360,6 +362,9 @@ Fixpoint remove_first {A} (eqb : A -> A -> bool) (x : A) (l : list A) : list A :
 Section Bins.
   Context {K A : Type}.
   Variables (keq : K -> K -> bool) (aeq : A -> A -> bool) (khash : K -> bool) (ahash : A -> bool).
+  (* "...for key %s" % key raises TypeError instead of the intended ValueError when key is a tuple whose
+     length is not 1 *)
+  Variable kfmt_fails : K -> bool.
 
   Inductive ares :=
   | AOk (m : dict K (bin A)) (removed added : option A)      (* _NIL = None *)
@@ -382,7 +387,8 @@ Section Bins.
       | KStrict =>
           match dget keq m key with
           | Some {| items := s :: _ |} =>
-              if aeq s value then AOk m None None else ARaise ValueErr
+              if aeq s value then AOk m None None
+              else ARaise (if kfmt_fails key then TypeErr else ValueErr)
           | _ => AOk (dset keq m key (one value)) None (Some value)
           end
       | _ =>
@@ -418,9 +424,11 @@ Section Bins.
           else Some m
       end.
 
-  (* remove_key: mapping.pop(key, ()) ; None = TypeError *)
+  (* remove_key: mapping.pop(key, ()) ; None = TypeError.  CPython's dict.pop returns the default
+     without hashing the key when the dict is empty. *)
   Definition remove_key (m : dict K (bin A)) (key : K) : option (dict K (bin A) * list A) :=
-    if negb (khash key) then None
+    if match m with [] => true | _ => false end then Some (m, [])
+    else if negb (khash key) then None
     else match dget keq m key with
          | None => Some (m, [])
          | Some b => Some (ddel keq m key, items b)
@@ -433,6 +441,7 @@ Inductive outcome := Done | Raise (e : exn).
 Section TwoWay.
   Context {L R : Type}.
   Variables (leq : L -> L -> bool) (req : R -> R -> bool) (lhash : L -> bool) (rhash : R -> bool).
+  Variables (lfmt : L -> bool) (rfmt : R -> bool).
   Variables (lk rk : kind).      (* TwoWayMap(left=lk, right=rk) *)
 
   Record twm := mkTwm { fwd : dict L (bin R); bwd : dict R (bin L) }.
@@ -452,17 +461,17 @@ Section TwoWay.
 
   (* TwoWayMap.insert *)
   Definition tw_insert (t : twm) (left : L) (right : R) : twm * outcome :=
-    match add_item leq req lhash rhash rk (fwd t) left right with
+    match add_item leq req lhash rhash lfmt rk (fwd t) left right with
     | ARaise e => (t, Raise e)
     | AOk fwd1 right_removed right_added =>
-        match add_item req leq rhash lhash lk (bwd t) right left with
+        match add_item req leq rhash lhash rfmt lk (bwd t) right left with
         | ARaise e =>
             (* except: bring _fwd back in sync, re-raise *)
             let fwd2 := match right_added with
                         | Some a => fst (rm_fwd fwd1 left a)
                         | None => fwd1 end in
             let fwd3 := match right_removed with
-                        | Some a => match add_item leq req lhash rhash rk fwd2 left a with
+                        | Some a => match add_item leq req lhash rhash lfmt rk fwd2 left a with
                                     | AOk m _ _ => m | ARaise _ => fwd2 end
                         | None => fwd2 end in
             (mkTwm fwd3 (bwd t), Raise e)
@@ -546,6 +555,10 @@ Arguments TRemoveRight {L R}. Arguments TClear {L R}.
 Definition key := list val.           (* a tuple of (extracted) values *)
 Definition key_hashable (k : key) : bool := forallb hashable k.
 Definition always {A} (_ : A) : bool := true.
+Definition never {A} (_ : A) : bool := false.
+Definition key_fmt_fails (k : key) : bool := negb (Nat.eqb (length k) 1).
+Definition val_fmt_fails (v : val) : bool :=
+  match v with VTuple [_] => false | VTuple _ => true | _ => false end.
 
 (* lookup._extract *)
 Definition extract (v : val) : val := match v with VRef _ i => VInt i | _ => v end.
@@ -562,7 +575,7 @@ Definition uses_contains (cols : list colspec) : bool := existsb is_contains col
 Definition right_kind (cols : list colspec) : kind := if uses_contains cols then KSet else KSingle.
 
 Definition lm_insert (cols : list colspec) :=
-  tw_insert Z.eqb vals_eqb always key_hashable KLookupSet (right_kind cols).
+  tw_insert Z.eqb vals_eqb always key_hashable never key_fmt_fails KLookupSet (right_kind cols).
 Definition lm_remove (cols : list colspec) :=
   tw_remove Z.eqb vals_eqb always key_hashable KLookupSet (right_kind cols).
 
